@@ -397,7 +397,8 @@ def predicates(s: Session, res: Result, label: str, only: str | None) -> None:
             bad("C05", "a message reached a normal consumer before its next execution time (millisecond resolution)",
                 case={"arrival": a, "due": due}, observed=a["at"], expected=f">= {due - 1000}")
         started = [o["now"] for o in ops if o.get("op") == "consumer" and o.get("cat") == "NORMAL"]
-        if started and min(started) <= due and a["at"] > max(due, hist[-1]["now"]) + S:
+        held_by_inspector = any(b["id"] == a["id"] and b["cat"] == "DELAYED" and hist[-1]["now"] <= b["at"] <= a["at"] for b in s.arrivals)
+        if started and min(started) <= due and a["at"] > max(due, hist[-1]["now"]) + S and not held_by_inspector:
             # late although a consumer was listening: was another delayed message with a later execution time in the delayed queue
             # (the per-message TTL fires only at the head of the queue)?
             blocked = any(o2["due"] is not None and o2["due"] > due and o2["now"] <= a["at"] and o2["id"] != a["id"]
